@@ -418,6 +418,8 @@ impl<'a> Run<'a> {
         if let Some(repo) = self.updated.read().get(rpki_notify) {
             return repo.read()
         }
+        #[cfg(routinator_verif)]
+        crate::verif::preempt("rrdp-after-first-check");
 
         // Get a clone of the (arc-ed) mutex. Make a new one if there isn’t
         // yet.
@@ -426,10 +428,14 @@ impl<'a> Run<'a> {
             .entry(rpki_notify.clone()).or_default()
             .clone()
         };
+        #[cfg(routinator_verif)]
+        crate::verif::preempt("rrdp-after-mutex-clone");
 
         // Acquire the mutex. Once we have it, see if the repository is
         // up-to-date which happens if someone else had the mutex first.
         let _lock = mutex.lock();
+        #[cfg(routinator_verif)]
+        crate::verif::preempt("rrdp-after-lock");
         if let Some(repo) = self.updated.read().get(rpki_notify) {
             self.running.write().remove(rpki_notify);
             return repo.read()
@@ -472,9 +478,13 @@ impl<'a> Run<'a> {
 
         // Insert into updated map.
         self.updated.write().insert(rpki_notify.clone(), repo);
+        #[cfg(routinator_verif)]
+        crate::verif::preempt("rrdp-between-bookkeeping");
 
         // Remove from running.
         self.running.write().remove(rpki_notify);
+        #[cfg(routinator_verif)]
+        crate::verif::preempt("rrdp-after-bookkeeping");
 
         Ok(res)
     }
